@@ -517,6 +517,10 @@ class Machine:
             operands = [x]
             s = [2.0, -1.5, 3, 0.5, 0][p % 5]
             if name == "sadd":
+                # now and then a scalar of another dtype category (complex on a real object, a float64 one-element tensor on
+                # anything): the library may refuse it, but whatever it returns has to be a well-formed object
+                if p % 7 == 0:
+                    s = 1j if p % 2 else torch.tensor([2.5], dtype=torch.float64)
                 res = x + s
             elif name == "ssub":
                 res = x - (torch.tensor(float(s), dtype=x.cores[0].dtype) if p % 2 else s)
@@ -770,7 +774,8 @@ class Machine:
             shp = list(x.cores[k].shape)
             if name == "set_core_newsize":
                 shp[1] = 1 + (shp[1] + p) % 3
-            x.set_core(k, core.payload(shp, "f64", "gauss", g).to(x.cores[k].dtype))
+            newc = core.payload(shp, "f64", "gauss", g)
+            x.set_core(k, newc.to(torch.float32) if p % 5 == 1 else newc.to(x.cores[k].dtype))
         elif name in ("reduce_dims", "reduce_dims_exclude"):
             x = self.pick(a, lambda o: any(n == 1 and (not o.is_ttm or o.M[i] == 1) for i, n in enumerate(o.N)) and
                           any(n > 1 for n in o.N))
